@@ -129,10 +129,11 @@ def run(chk, tmp, replay=None):
                 # `grog changes` since the base commit: exactly the files edited so far are changed
                 edited = [x for x in ("p/a.txt", "p/q/c.txt", "r/y.txt") if x == f or any(h[0] == x for h in hist)]
                 for flag, keyname in ((["--dependents=none"], "direct"), (["--dependents=transitive"], "transitive")):
-                    want = set()
-                    for x in edited:
-                        want |= set(c["changes"][x][keyname])
-                    q(["changes", "--since=HEAD"] + flag, [lab(g, x) for x in want], "changes-" + keyname)
+                    for ty in ("all", "test", "no_test"):
+                        want = set()
+                        for x in edited:
+                            want |= set(c["changes"][x][keyname][ty])
+                        q(["changes", "--since=HEAD", "--target-type", ty] + flag, [lab(g, x) for x in want], f"changes-{keyname}-{ty}")
                 hist.append((f, ran))
         return c, bad, n, hist
 
